@@ -960,7 +960,9 @@ fn build_trun(samples: &[FragmentSample], data_offset: u32) -> Vec<u8> {
             32,
             true,
         );
-        let cts = (sample.pts as i64 - sample.dts as i64) as i32;
+        // Computed in 128 bits: pts/dts are arbitrary u64 values supplied by the caller and
+        // 'pts as i64 - dts as i64' overflowed (panic in checked builds) for values >= 2^63.
+        let cts = (i128::from(sample.pts) - i128::from(sample.dts)) as i32;
         payload.extend_from_slice(&cts.to_be_bytes());
     }
 
